@@ -39,7 +39,8 @@ def replay_fn(cfg, func, a):
       r = h.scenario_stream(client_samplers, st, A, a['n'], a['cohort'], a['start'], a['seed0'], ID_BYTES.get)
     else:
       order = [h.ROUNDS[a[k]] for k in ('i1', 'i2', 'i3') if k in a]
-      r = h.scenario_get(client_samplers, st, A, n, cohort, seed, order, [], _key, _real_expected, lambda p: None, ID_BYTES.get)
+      r = h.scenario_get(client_samplers, st, A, n, cohort, seed, order, [], _key, _real_expected, lambda p: None, ID_BYTES.get,
+                         seat_twice=bool(a.get('seat_twice', False)))
   except Exception as e:   # pylint: disable=broad-except
     r = 'real code raises %r' % (e,)
   return (r is not None), (r or 'real sampler is a function of (seed, round) on bytes ids with trailing zero bytes')
@@ -58,7 +59,7 @@ def check(run):
                   'numpy RandomState(s) = draws that are a function of s: the permutation behind choice() is symbolic per derived seed and remembered']
   run.assumptions += ['collision-freeness of threefry and of the Lehmer step is outside the claim (distinct rounds are assumed to give distinct derived seeds / keys)',
                       'numpy object-array handling of ids with trailing zero bytes is covered only by the replay on real bytes ids']
-  g = [(3, 2, 0), (3, 3, 1), (2, 1, 0), (3, 1, 1)] if run.tier == 'quick' else [(n, c, s) for n in (1, 2, 3) for c in range(1, n + 1) for s in (0, 1)]
+  g = [(3, 2, 0), (3, 3, 1), (2, 1, 0), (3, 1, 1), (4, 3, 0)] if run.tier == 'quick' else [(n, c, s) for n in (1, 2, 3) for c in range(1, n + 1) for s in (0, 1)]
   g3 = [(4, 2, 0), (4, 4, 1), (3, 3, 0)] if run.tier == 'quick' else [(n, c, s) for n in (3, 4) for c in range(1, n + 1) for s in (0, 1)]
   run.bounds = {'clients': '1..4', 'cohort': '1..clients', 'requested rounds': '2 (symbolic draws) or 3 (fixed draws) from {0,1,2,5} in any order with repeats',
                 'streaming sampler': 'clients 2..4, cohort 1..2, restart at round 0..2, seeds 0 and 3'}
@@ -71,7 +72,7 @@ def check(run):
   jobs, meta = [], []
   for c in g:
     jobs.append((HARNESS, 'get_sampler', timeout, {'C13_CFG': ','.join(map(str, c))}))
-    meta.append((c, 'get_sampler', ['i1', 'i2', 'p1', 'p2']))
+    meta.append((c, 'get_sampler', ['i1', 'i2', 'p1', 'p2', 'seat_twice']))
   for c in g3:
     jobs.append((HARNESS, 'get_sampler3', timeout, {'C13_CFG': ','.join(map(str, c))}))
     meta.append((c, 'get_sampler3', ['i1', 'i2', 'i3']))
